@@ -95,17 +95,41 @@ func lfOpStopChild(parent, child string) *lfOp {
 		run: func(w *lfWorld) string { return lfErrClass(w.pid(parent).Stop(c06Ctx, w.pid(child))) }}
 }
 
+// lfTurnOpen: the actor or one of its (static) descendants is in the middle of a message turn that
+// is parked on a gate. restartSubtree spin-waits (runtime.Gosched) for such a turn to end, which a
+// bubble can never settle; Restart is therefore only started when no such turn is open (the omitted
+// orders are those in which Restart waits for the turn and continues when it ends).
+func (w *lfWorld) lfTurnOpen(name string) bool {
+	// (a running actor with an open turn is inside a gated Receive: Restart then runs Shutdown first
+	// and the C06 PostStop hook opens that gate, see c06Build)
+	if p := w.pid(name); p != nil && p.schedState.Load() == dispatchProcessing && !p.IsRunning() {
+		return true
+	}
+	w.mu.Lock()
+	cs := append([]string(nil), w.children[name]...)
+	w.mu.Unlock()
+	for _, c := range cs {
+		if w.lfTurnOpen(c) {
+			return true
+		}
+	}
+	return false
+}
+
 func lfOpRestart(target string) *lfOp {
 	return &lfOp{label: "restart(" + target + ")", kind: "restart", touches: []string{"?" + target},
+		enabled: func(w *lfWorld) bool { return !w.lfTurnOpen(target) },
 		run: func(w *lfWorld) string { return lfErrClass(w.pid(target).Restart(c06Ctx)) }}
 }
 
-func lfOpSystemStop(all ...string) *lfOp {
-	t := make([]string, len(all))
-	for i := range all {
-		t[i] = "?" + all[i]
+// lfOpSystemStop: ActorSystem.Stop. It calls Shutdown on the user guardian (tracked as "$ug", whose
+// children are the given top-level actors).
+func lfOpSystemStop(w *lfWorld, roots ...string) *lfOp {
+	w.setTrack("$ug", w.sys.getUserGuardian())
+	for _, r := range roots {
+		w.addChild("$ug", r)
 	}
-	return &lfOp{label: "system.stop", kind: "system-stop", touches: t,
+	return &lfOp{label: "system.stop", kind: "system-stop", touches: []string{"$ug"},
 		run: func(w *lfWorld) string { return lfErrClass(w.sys.Stop(c06Ctx)) }}
 }
 
@@ -177,7 +201,7 @@ func c06Build(name string, paths []string, tells int, forceParent bool) c06Scn {
 			case "parent-stop":
 				op = lfOpKill("p")
 			case "system-stop":
-				op = lfOpSystemStop(all...)
+				op = lfOpSystemStop(w, all[0])
 			case "supervisor-stop":
 				op = lfOpTell("a", "fail", func(a *lfActor, ctx *ReceiveContext) { ctx.Err(errors.New("boom")) }, "?a")
 			case "self-shutdown":
